@@ -33,6 +33,7 @@ BENIGN_THEMES = [
     "MODERNISATION: dataclass / NamedTuple field defaults, `typing` clean-ups, f-strings, `super()` without arguments, pathlib-free import clean-ups, `__all__`, `__slots__` where safe, replacing `type(x) == T` by `isinstance` ONLY where no subclass relation exists between the candidate classes, walrus operator, `match` is not allowed (python 3.8 compatible code only)",
 ]
 
+BUG_FOCUS["W9"] = "Additional guidance for this round: free style - surprise the tool. Ideas: a change that is only wrong in combination with an existing quirk elsewhere in the code (read the callers and callees first); a default value or constant that silently changes meaning; state that leaks between two objects that should be independent; an `async` ordering change (something read before an await and used after it, or written after it); a comparison between values of different types that is always false/true; a copy that became an alias (or the reverse); integer / bytes / str confusions; `sorted` / `set` / `dict` ordering assumptions; an exception class moved in the hierarchy. Keep each change small (2-15 changed lines) and plausible as a clean-up or optimisation. The two changes must be in different files and of different kinds."
 BENIGN_THEMES_BY_PREFIX = {
     "W8": BENIGN_THEMES + [
         "ASYNC RESTRUCTURING that keeps every await in the same order relative to reads and writes of shared state: `async for` <-> explicit `__anext__` loops where equivalent, helper coroutines extracted / inlined, `asyncio.ensure_future` vs `loop.create_task` for the trap callback, context managers around the retry loop that do nothing on exit, `try/finally` clean-ups that are equivalent to the existing ones",
@@ -40,6 +41,7 @@ BENIGN_THEMES_BY_PREFIX = {
         "STRICTER TYPING AND PY3.8-COMPATIBLE MODERNISATION of src/puresnmp_plugins/** and src/puresnmp/plugins/**: Protocol classes for plug-in modules, `Final`, `Literal`, explicit `Optional`, keyword-only arguments for private helpers (all call sites updated), `typing.cast` removed where an isinstance check exists already, `dataclasses.field(default_factory=...)`",
         "DEAD-CODE AND DUPLICATION CLEAN-UP: merge the two nearly identical community security models / MPMs through a shared private base class or helper while keeping both plug-in modules and identifiers; remove unused imports / variables; unify duplicated error messages through constants; fold `is_confirmed` style predicates into a table; everything observable stays as it is",
     ],
+    "W9": [],
     "W7": [
         "MODULE REORGANISATION that keeps every existing import path working: move a group of functions or classes into a new module (for example the walk helpers of puresnmp/util.py into puresnmp/walk.py, the error classes for agent error-status into puresnmp/errors.py, the SNMPv3 data classes into a sub-module) and re-export them from the old module (`from .new import name  # re-export`), update internal imports to the new location in some places and leave the old ones elsewhere",
         "RENAMING of private names throughout: private methods and attributes of Client, PyWrapper, V3MPM, UserSecurityModel, SNMPClientProtocol (leading underscore names, local variables, parameters of private functions, module-level private constants). Public names and keyword arguments of public functions keep their names. Rename consistently at every use",
@@ -51,6 +53,8 @@ BENIGN_THEMES_BY_PREFIX = {
         "TYPE-LEVEL AND DATA-MODEL CLEAN-UPS: NamedTuple <-> frozen dataclass where tuple behaviour (unpacking, indexing, ordering) is preserved by adding the needed dunder methods, Enum / IntEnum for integer constants that are only compared, TypedDict / Protocol annotations, `Final` constants, `Optional` made explicit, overloads; values on the wire and results stay bit-identical",
     ],
 }
+
+BENIGN_THEMES_BY_PREFIX["W9"] = BENIGN_THEMES_BY_PREFIX["W7"] + BENIGN_THEMES_BY_PREFIX["W8"][8:]
 
 
 def props():
